@@ -88,7 +88,7 @@ int main(int argc, const char *argv[]) {
       std::exit(1);
     }
     // Run.
-    return driver.runCatchExceptions(driverAction, inputFilename, outputFilename, "a.out", reportMemoryInfo);
+    return driver.runCatchExceptions(driverAction, inputFilename, true, outputFilename, reportMemoryInfo);
   } catch (const std::exception &e) {
     std::cerr << boost::format("Error: %s\n") % e.what();
     return 1;
